@@ -81,6 +81,16 @@ CLAIMED = {
         'technique': 'contract-based deductive verification (Verus) of extracted real code',
         'design_ref': 'DESIGN.md 5/C17',
     },
+    'C21': {
+        'text': 'Deductive proof (Verus) on the verbatim bodies of separate_rules, strip_comments, check_last_char (and the helpers is_decimal_point, trim_error_line): '
+                'separate_rules returns exactly the segments of the text that end at a rule-ending period (a period at bracket depth 0, outside quotes, that is not a decimal point), each containing no other such period, '
+                'their concatenation being a prefix of the text whose remainder contains none (spec segmented / rule_end), and fails exactly when brackets are unbalanced; '
+                'strip_comments returns the trimmed text before the first #, % or // outside brackets; check_last_char accepts exactly the documented continuation characters. '
+                'PARTIAL: the file-reading glue (io::Lines iteration, joining of lines) and parse_rule are outside the proof.',
+        'note': 'Trusted: str_to_chars!/chars_to_string! as functions (R5), str::trim as a contiguous sub-sequence, char::is_ascii_digit, String::push (T3); unmatched_bracket assumed (Verus crashes on its body). i32 depth counters: inputs below 2^31 characters.',
+        'technique': 'contract-based deductive verification (Verus) of extracted real code',
+        'design_ref': 'DESIGN.md 5/C21',
+    },
     'C22': {
         'text': "Kani (CBMC) harnesses on the real crate, sequential, complete (loop-free or fully unwound, full-domain scalars): from an ARBITRARY prior value of the two cross-query globals (stop flag, id counter) "
                 "start_query() and make_query() re-establish the initial state (flag clear, ids restart), and next_id/set_var_id/clear_id/stop_query satisfy their counter/flag contracts. "
